@@ -63,6 +63,12 @@ impl DespawnAccessTracker
         self.currently_reacting
     }
 
+    #[cfg(cobweb_verif)]
+    pub(crate) fn verif_state(&self) -> (bool, usize, bool)
+    {
+        (self.currently_reacting, self.prepared.len(), self.reactor_handle.is_some())
+    }
+
     /// Returns the source of the most recent entity reaction.
     fn source(&self) -> Entity
     {
